@@ -127,7 +127,7 @@ func buildReport(id, tier string, seed int, claim *Claim, results []*FnResult, a
 	sort.Slice(fails, func(i, j int) bool { return fails[i].o.Name < fails[j].o.Name })
 	nReplayed, nReplayConfirmed := 0, 0
 	for _, f := range fails {
-		if claim.Replay != "" && f.o.Expect == "unsat" && f.known == nil {
+		if claim.Replay != "" && (f.o.Expect == "unsat" || f.o.Kind == "translation") && f.known == nil {
 			f.replay = runReplay(claim.Replay, f.o, repo, engines)
 			if f.replay != nil {
 				nReplayed++
